@@ -36,7 +36,7 @@ def shards(tier, seed):
                        "backends": ["numba", "numpy"]}} for i in range(n_sh)]
     out.append({"name": "cudasim", "threads": 1, "timeout": budget * 4 + 300,
                 "env": {"NUMBA_ENABLE_CUDASIM": "1"},
-                "params": {"seed": seed, "shard": 100, "n": ncuda, "budget_s": budget,
+                "params": {"seed": seed, "shard": 100, "n": ncuda, "budget_s": budget * 3,
                            "tier": tier, "backends": ["cuda"], "cuda": True}})
     return out
 
